@@ -1,4 +1,5 @@
 import Cirbo.Proofs.Denorm
+import Cirbo.Proofs.DbLookupC
 /-!
 # C17 — Shipped circuit databases are correct and lookups return the requested function
 
@@ -7,7 +8,10 @@ import Cirbo.Proofs.Denorm
 -- OBLIGATION: c17_sort_is_permutation
 -- OBLIGATION: c17_denormalize_circuit
 -- OBLIGATION: c17_lookup_entry_correct
--- PARTIAL: proved (for every table, any number of outputs and rows): normalisation followed by denormalisation is the identity on the outputs' truth tables (negation, stable sort, duplicate removal and their inverses); and at circuit level: denormalize(circuit) leaves the inputs alone and puts the denormalised values on the outputs (reused / fresh not_<o> gates), so an entry whose stored circuit computes the normalised table yields a circuit computing the requested table in the requested output order (c17_lookup_entry_correct). The quantifier over the 2 x 349,724 shipped entries ('the stored circuit computes its key') is a finite table: it is discharged by executing the code's and the Lean model's decoder + evaluator + well-formedness checker over the entries (quick: every entry with <= 2 inputs plus a seeded sample; thorough: all), not by a kernel proof. That denormalize never raises on a matching entry, and the don't-care lookup (all completions, smallest hit), are checked on the real databases by the search and the correspondence.
+-- OBLIGATION: c17_dontcare_completions_exact
+-- OBLIGATION: c17_dontcare_lookup
+-- OBLIGATION: c17_dontcare_lookup_computes
+-- PARTIAL: proved (for every table, any number of outputs and rows): normalisation followed by denormalisation is the identity on the outputs' truth tables (negation, stable sort, duplicate removal and their inverses); and at circuit level: denormalize(circuit) leaves the inputs alone and puts the denormalised values on the outputs (reused / fresh not_<o> gates), so an entry whose stored circuit computes the normalised table yields a circuit computing the requested table in the requested output order (c17_lookup_entry_correct). The quantifier over the 2 x 349,724 shipped entries ('the stored circuit computes its key') is a finite table: it is discharged by executing the code's and the Lean model's decoder + evaluator + well-formedness checker over the entries (quick: every entry with <= 2 inputs plus a seeded sample; thorough: all), not by a kernel proof. The lookup of a table with don't-cares is proved too, for every pattern of don't-cares and any database lookup of full tables: the tables looked up are exactly the full tables of the model's shape that agree with its defined entries (c17_dontcare_completions_exact), the circuit returned is the stored circuit of one of them, no stored circuit of any of them is smaller, and nothing is returned only when none of them is stored (c17_dontcare_lookup); given that the lookup of full tables returns only circuits computing the table asked for, the circuit returned computes a table with every defined entry (c17_dontcare_lookup_computes). The order of the tables looked up and the circuit chosen are compared with get_by_raw_truth_table_model on the shipped databases by the correspondence. That denormalize never raises on a matching entry is checked on the real databases by the search and the correspondence.
 -/
 namespace Cirbo
 open Norm
@@ -69,6 +73,41 @@ theorem c17_lookup_entry_correct {tt : List Row} {info : Info} {c c' : Circuit} 
     ∃ v', IsValB c' b v' ∧ c'.outputs.map v' = col j tt ∧ c'.inputs = c.inputs :=
   lookup_entry_correct hnorm hw hn hd j hrows hv hstored
 
+/-- **the tables looked up for a model with don't-cares** (`none` = `DontCare`) are exactly the fully defined
+tables that have the model's shape and every defined entry of the model -/
+theorem c17_dontcare_completions_exact (tt : List (List TEntry)) (t : List Row) :
+    t ∈ completions tt ↔
+      (t.length = tt.length ∧ (∀ i, (t.getD i []).length = (tt.getD i []).length) ∧
+       ∀ i j b, (tt.getD i [])[j]? = some (some b) → (t.getD i []).getD j false = b) :=
+  mem_completions_iff tt t
+
+/-- **looking up a model with don't-cares** (`get_by_raw_truth_table_model`; `lookup` = the lookup of fully
+defined tables, `size` = `gates_number(exclusion_list)`): the circuit returned is the stored circuit of a full
+table that agrees with every defined entry; the stored circuit of no agreeing full table is smaller; and
+nothing is returned only if no agreeing full table is stored -/
+theorem c17_dontcare_lookup {γ} (lookup : List Row → Option γ) (size : γ → Nat) (tt : List (List TEntry)) :
+    (∀ r, lookupDC lookup size tt = some r →
+      (∃ t, Agrees tt t ∧ lookup t = some r) ∧ ∀ t, Agrees tt t → ∀ c, lookup t = some c → size r ≤ size c) ∧
+    (lookupDC lookup size tt = none ↔ ∀ t, Agrees tt t → lookup t = none) :=
+  lookupDC_correct lookup size tt
+
+/-- with a lookup of full tables that only returns circuits computing the table asked for
+(`c17_lookup_entry_correct` + the sweep of the stored entries), the circuit returned for a model with
+don't-cares computes a table that has every defined entry of the model -/
+theorem c17_dontcare_lookup_computes {γ} (lookup : List Row → Option γ) (size : γ → Nat) (Computes : γ → List Row → Prop)
+    (hlookup : ∀ t r, lookup t = some r → Computes r t) (tt : List (List TEntry)) (r : γ)
+    (h : lookupDC lookup size tt = some r) :
+    ∃ t, Computes r t ∧ t.length = tt.length ∧ (∀ i, (t.getD i []).length = (tt.getD i []).length) ∧
+      ∀ i j b, (tt.getD i [])[j]? = some (some b) → (t.getD i []).getD j false = b :=
+  lookupDC_computes lookup size Computes hlookup tt r h
+
+/-- non-vacuity: two don't-cares, four completions in the order of `itertools.product`; the smaller of the two
+circuits found wins, the first of equals -/
+example : completions [[some true, none], [none, some false]] =
+    [[[true, false], [false, false]], [[true, false], [true, false]], [[true, true], [false, false]], [[true, true], [true, false]]] := by decide
+example : lookupDC (fun t => if t = [[true, false], [true, false]] then some 5 else if t = [[true, true], [false, false]] then some 3
+    else if t = [[true, true], [true, false]] then some 3 else none) (fun n => n / 2) [[some true, none], [none, some false]] = some 3 := by decide
+
 open GateType in
 /-- non-vacuity: a stored AND gate, asked for [NAND, AND, NAND] -/
 example : ((normalize [[true, true, true, false], [false, false, false, true], [true, true, true, false]]).toOption.bind
@@ -86,5 +125,8 @@ example : (normalize [[false, true, true, false], [true, false, false, true], [f
 #print axioms c17_sort_is_permutation
 #print axioms c17_denormalize_circuit
 #print axioms c17_lookup_entry_correct
+#print axioms c17_dontcare_completions_exact
+#print axioms c17_dontcare_lookup
+#print axioms c17_dontcare_lookup_computes
 
 end Cirbo
